@@ -117,9 +117,11 @@ PROPS["C20"] = dict(num=20, labs=["par"], rule=PAR_RULE, nontrivial="fallback-se
     trusted_base=PAR_TRUSTED, assumptions=["the loopback listener's accept count equals the TCP connections the run opened"])
 
 ISO_RULE = ("Allocator lab: packets.AllocPacketID sequences of 1..12 blocks (sizes incl. 1, 30, 255) from counter values at and around the 2^16 and 2^32 wraps, sequentially and from concurrent goroutines; icmp.nextEchoID sequences. "
-            "Driver lab, two-run part: for every variant a second run to the same target with the identifiers the allocators / the OS would hand it is alive at the same time; each run is fed every genuine reply to the other's probes.")
+            "Driver lab, two-run part: for every variant a second run to the same target with the identifiers the allocators / the OS would hand it is alive at the same time; each run is fed every genuine reply to the other's probes. "
+            "Shared-wire part (kind 18): 2..6 REAL runs at once (runTracerouteOnce for udp / icmp / tcp-syn, IPv4 and IPv6, and whole RunTraceroute requests with 1..3 queries + 0..2 end-to-end probes) in one synctest bubble over ONE simulated wire on which every capture handle sees every inbound packet, with and without the capture filters; "
+            "the network routes per flow (path length, silent router and router ADDRESSES are functions of the echo id / local port), start offsets 0..51 ms, duplicated replies; observed: every run's hop list, which must be the ideal path of its own flow.")
 PROPS["C11"] = dict(num=11, labs=["iso", "drv"], rule=ISO_RULE + " " + DRV_RULE, nontrivial="any case", trivial_classes=[],
-    signatures={"11.1": "a reply to another concurrent run's probe became a hop of this run", "11.2": "identifier blocks of live runs overlap", "11.3": "echo identifiers repeat", "1": "a hop was reported for a packet that is not a genuine reply to this run's probe", "1.9": "hop from unparseable bytes"},
+    signatures={"11.1": "a reply to another concurrent run's probe became a hop of this run", "11.2": "identifier blocks of live runs overlap", "11.3": "echo identifiers repeat", "11.4": "a run on the shared wire did not report the path of its own flow (the result it produces alone)", "11.5": "two concurrent runs used the same flow identifier", "1": "a hop was reported for a packet that is not a genuine reply to this run's probe", "1.9": "hop from unparseable bytes"},
     trusted_base=DRV_TRUSTED + ["sync/atomic Add is linearisable (the allocator model is sequential)", "the OS never hands one local port to two sockets held at the same time (oracle)"],
     assumptions=["runs with relaxed quoted-source checking to one target are distinguished by 32-bit random ISNs only (named residue)"])
 
